@@ -182,6 +182,30 @@ func chunkFor(w string, r *simctl.Rand) ChunkSpec {
 	}
 }
 
+// capReadYield keeps the number of device scheduling points of one run around
+// a few thousand, whatever the chunking.
+func capReadYield(c *RunConfig) {
+	avg := 0
+	wi := Info(c.Workflow)
+	switch c.Chunk.Kind {
+	case "fixed", "devchunk":
+		avg = c.Chunk.K
+	case "geom":
+		avg = 64
+	case "rand":
+		avg = wi.SampleBytes / 2
+	case "onethenrest":
+		avg = wi.SampleBytes / 2
+	}
+	if avg <= 0 || c.ReadYield <= 0 {
+		return
+	}
+	reads := int(c.Required()) / avg
+	if min := reads/3000 + 1; c.ReadYield < min {
+		c.ReadYield = min
+	}
+}
+
 // Plan lists the configurations for a property and tier.
 func Plan(prop, tier string, seed uint64) []RunConfig {
 	r := simctl.NewRand(simctl.Mix(seed, uint64(prop[1]-'0')*10+uint64(prop[2]-'0')))
@@ -408,12 +432,24 @@ func Plan(prop, tier string, seed uint64) []RunConfig {
 			for nb := 0; nb <= 4096; nb++ {
 				out = append(out, singleCase(prop, nb, r))
 			}
+			// around the two m-selection boundaries: contents whose poker
+			// verdict differs between the neighbouring pattern lengths
+			for _, nb := range []int{36, 37, 38, 39, 40, 41, 42, 43, 44, 1270, 1276, 1278, 1279, 1280, 1281, 1282, 1284, 1290} {
+				for _, kind := range []string{"quad", "nibdup", "quad", "nibdup"} {
+					c := singleCase(prop, nb, r)
+					c.Stream = StreamSpec{Kind: kind, Seed: r.Uint64(), Tail: r.Intn(3)}
+					out = append(out, c)
+				}
+			}
 			for _, nb := range []int{4097, 5000, 8192, 10240 / 8, 10240/8 + 1, 10240/8 - 1, 12500, 65536, 125000} {
 				out = append(out, singleCase(prop, nb, r))
 			}
 		}
 	case "C14":
 		out = planC14(prop, thorough, r)
+	}
+	for i := range out {
+		capReadYield(&out[i])
 	}
 	return out
 }
